@@ -2016,3 +2016,138 @@ pub mod config {
         crate::is_nightly_channel!()
     }
 }
+
+/// The parse-error bookkeeping of `parse::session` / `parse::parser`, driven from outside.
+pub mod parse_errors {
+    use std::path::{Path, PathBuf};
+
+    use rustc_errors::Level;
+    use rustc_span::{BytePos, DUMMY_SP, FileName as SpanFileName, RealFileName};
+
+    use crate::Input;
+    use crate::config::Config;
+    use crate::parse::parser::{Parser, ParserError};
+    use crate::parse::session::verif_local::ErrProbe;
+    use crate::utils::mk_sp;
+
+    /// Where the primary span of a synthetic diagnostic lies.
+    #[derive(Debug, Clone, Copy, PartialEq, Eq)]
+    pub enum Loc {
+        NoSpan,
+        /// a file that is not a local path (`FileName::Custom("stdin")`)
+        Stdin,
+        /// the `i`-th registered local file
+        File(usize),
+    }
+
+    #[derive(Debug, Clone, PartialEq, Eq)]
+    pub enum Op {
+        /// level: 0 `Fatal`, 1 `Error`, 2 `Warning`, 3 `Note`, 4 `Help`, 5 `Bug`
+        Emit(u8, Loc),
+        Reset,
+        /// `Parser::parse_crate(Input::File(path), psess)`
+        ParseCrate(PathBuf),
+        /// `Parser::parse_file_as_module(psess, path, DUMMY_SP)`
+        ParseModule(PathBuf),
+    }
+
+    #[derive(Debug, Clone, PartialEq, Eq)]
+    pub struct Obs {
+        /// `""` for `Emit` / `Reset`; `"Ok"` or the name of the `ParserError` variant
+        pub result: &'static str,
+        pub can_reset: bool,
+        pub has_errors: bool,
+        /// diagnostics handed on to the wrapped emitter so far (counting sessions only)
+        pub shown: Option<u32>,
+    }
+
+    fn err_name(e: &ParserError) -> &'static str {
+        match e {
+            ParserError::NoParseSess => "NoParseSess",
+            ParserError::NoInput => "NoInput",
+            ParserError::ParserCreationError => "ParserCreationError",
+            ParserError::ParseError => "ParseError",
+            ParserError::ParsePanicError => "ParsePanicError",
+        }
+    }
+
+    /// One parse session configured by `toml` (read as the file `toml_path`), the local files
+    /// `files` registered in its source map (for synthetic diagnostics only; never parsed), then
+    /// `ops` in order; the observation after each.
+    pub fn run(
+        toml: &str,
+        toml_path: &Path,
+        counting: bool,
+        files: &[PathBuf],
+        ops: &[Op],
+    ) -> Result<Vec<Obs>, String> {
+        let config = Config::from_toml(toml, toml_path).map_err(|e| e.to_string())?;
+        rustc_span::create_session_if_not_set_then(
+            rustc_span::edition::Edition::Edition2015,
+            |_| {
+                let probe = ErrProbe::new(&config, counting).map_err(|e| e.to_string())?;
+                let stdin = probe.add_file(SpanFileName::Custom("stdin".to_owned()), "fn a() {}");
+                let local: Vec<_> = files
+                    .iter()
+                    .map(|p| {
+                        probe.add_file(
+                            SpanFileName::Real(RealFileName::LocalPath(p.clone())),
+                            "fn a() {}",
+                        )
+                    })
+                    .collect();
+                let mut out = vec![];
+                for op in ops {
+                    let result = match op {
+                        Op::Emit(level, loc) => {
+                            let level = match level {
+                                0 => Level::Fatal,
+                                1 => Level::Error,
+                                2 => Level::Warning,
+                                3 => Level::Note,
+                                4 => Level::Help,
+                                _ => Level::Bug,
+                            };
+                            let span = match loc {
+                                Loc::NoSpan => None,
+                                Loc::Stdin => {
+                                    Some(mk_sp(stdin.start_pos, stdin.start_pos + BytePos(1)))
+                                }
+                                Loc::File(i) => {
+                                    let sf = local.get(*i).ok_or("no such file")?;
+                                    Some(mk_sp(sf.start_pos, sf.start_pos + BytePos(1)))
+                                }
+                            };
+                            probe.emit(level, span);
+                            ""
+                        }
+                        Op::Reset => {
+                            probe.reset();
+                            ""
+                        }
+                        Op::ParseCrate(path) => {
+                            match Parser::parse_crate(Input::File(path.clone()), &probe.psess) {
+                                Ok(_) => "Ok",
+                                Err(e) => err_name(&e),
+                            }
+                        }
+                        Op::ParseModule(path) => {
+                            match Parser::parse_file_as_module(&probe.psess, path, DUMMY_SP) {
+                                Ok(_) => "Ok",
+                                Err(e) => err_name(&e),
+                            }
+                        }
+                    };
+                    let (can_reset, has_errors, shown) = probe.observe();
+                    out.push(Obs {
+                        result,
+                        can_reset,
+                        has_errors,
+                        shown,
+                    });
+                }
+                Ok(out)
+            },
+        )
+    }
+}
